@@ -10,8 +10,18 @@ tie:   the REAL MultiThreadRunner / PersistentProcessRunner / ProcessRunner obje
        changes and configurations are generated (exhaustive two-round subsets for small pools +
        seeded random histories); after EVERY event the tracked workers, their liveness, the broker
        queue length and the ids passed to register_runner_heartbeats are compared with the model
-       (`trace`, Eval vm_compute), and an oracle that does not use the model checks the property
+       (`traceG`, Eval vm_compute), and an oracle that does not use the model checks the property
        statement on the observations.
+ids:   a worker is identified by its RUNNER ID (the key of child_runner_ids, numbered by first
+       appearance), not by its process: the oracle remembers every id whose process was seen dead and
+       no later call of register_runner_heartbeats may name it (a replacement process tracked under
+       the id of the worker it replaces keeps the dead worker's invocations unrecoverable).  The
+       source of the ids of new workers is a generated fact (gen/PoolIds_gen.v) under every theorem.
+recov: "so the unfinished invocations of dead workers become recoverable" is also observed end to end:
+       workers take invocations and set them RUNNING as the worker processes do, die, the parent
+       keeps cycling (clock tick, heartbeat report, loop iteration) on a harness-owned clock, and
+       get_running_invocations_for_recovery() must list the invocation once the dead-runner timeout
+       has passed since the death.
 """
 from __future__ import annotations
 
@@ -25,32 +35,47 @@ import warnings
 from harness import world
 from harness.common import Ctx
 from harness.translate import pool_loops
+from harness.vclock import VirtualClock
 
-GENERATED = [("harness.translate.pool_loops", "translate", "gen/Pool_gen.v")]
+GENERATED = [("harness.translate.pool_loops", "translate", "gen/Pool_gen.v"),
+             ("harness.translate.pool_loops", "translate_ids", "gen/PoolIds_gen.v")]
 
 MANIFEST = {
-    "technique": "Coq proof over loop bodies generated from the runner sources + differential run of the real runners on process stand-ins",
-    "text": "Machine-checked theorems (Props/C14.v) about Model/Pool.v instantiated with the runner_loop_iteration bodies and "
-            "get_active_child_runner_ids selectors regenerated from multi_thread_runner.py, persistent_process_runner.py, "
-            "process_runner.py and base_runner.py on every run: for EVERY history of worker deaths (any subsets, repeatedly, all "
-            "at once), queue changes, iterations and heartbeats, one or more further iterations leave no dead worker tracked and "
-            "the configured number alive (persistent: exactly num_processes; process runner: full or queue empty, exactly "
-            "min(free, waiting) picked up; multi-thread: decided by the generated loop body — restored if it prunes before "
-            "scaling, refuted by a closed witness if it only scales up); a dead worker's id is untracked by the next iteration and "
-            "never tracked or heart-beaten again. Tie: the real runner classes are driven through on_start / "
-            "runner_loop_iteration / _report_child_runner_heartbeats with Process/Manager/cpu_count stand-ins; every observation "
-            "(tracked ids, liveness, queue length, ids passed to register_runner_heartbeats) is compared with the model after every "
-            "event, exhaustive over death subsets for small pools plus seeded random histories; a model-independent oracle "
-            "evaluates the statement on the real observations.",
-    "note": "Trusted: Coq kernel; AST translator of the loop bodies (fail-closed); hand mirror of _scale_up_processes / "
-            "_cleanup_dead_processes / spawn helpers / _on_start capacity resolution in Model/Pool.v (tied by the differential run + "
-            "AST shape hashes); process stand-ins (is_alive/start/join/terminate/kill/pid) in place of OS processes; real death, "
-            "Process.is_alive semantics and the child processes' own code are outside the model. Known finding (defect #2): "
-            "MultiThreadRunner.runner_loop_iteration never prunes dead workers — proposed_fixes/C14-mtr-loop-prunes-dead.diff.",
+    "technique": "Coq proof over loop bodies and worker-id sources generated from the runner sources + differential run of the real "
+                 "runners on process stand-ins and a harness-owned clock",
+    "text": "Machine-checked theorems (Props/C14.v) about Model/Pool.v instantiated with the runner_loop_iteration bodies, the "
+            "get_active_child_runner_ids selectors (gen/Pool_gen.v) and the source of the runner ids of new workers (gen/PoolIds_gen.v: "
+            "fresh uuid4 per spawn vs an id taken back from a forgotten worker) regenerated from multi_thread_runner.py, "
+            "persistent_process_runner.py, process_runner.py, base_runner.py and runner_context.py on every run: for EVERY history of "
+            "worker deaths (any subsets, repeatedly, all at once), queue changes, iterations and heartbeats, one or more further "
+            "iterations leave no dead worker tracked and the configured number alive (persistent: exactly num_processes; process "
+            "runner: full or queue empty, exactly min(free, waiting) picked up; multi-thread: decided by the generated loop body — "
+            "restored if it prunes before scaling, refuted by a closed witness if it only scales up); a dead worker's RUNNER ID is "
+            "untracked by the next iteration and never tracked or heart-beaten again, by whatever process (all stated over the "
+            "generated id sources through the fact worker_ids_are_fresh; with recycled ids the same loop is proved to report a dead "
+            "worker's id again). Tie: the real runner classes are driven through on_start / runner_loop_iteration / "
+            "_report_child_runner_heartbeats with Process/Manager/cpu_count stand-ins; every observation (tracked runner ids, "
+            "liveness, queue length, ids passed to register_runner_heartbeats) is compared with the model after every event, "
+            "exhaustive over death subsets for small pools plus seeded random histories; a model-independent oracle evaluates the "
+            "statement on the real observations, following runner ids over time (an id whose process was seen dead never gets "
+            "another heartbeat, also when a live replacement is tracked under it) and, end to end, requiring that a RUNNING "
+            "invocation taken by a worker that died is listed by get_running_invocations_for_recovery() once the dead-runner timeout "
+            "has passed while the parent keeps cycling (every non-empty owner subset x death subset for small pools, two timings, "
+            "second death round of the replacements).",
+    "note": "Trusted: Coq kernel; AST translators of the loop bodies and of the worker-id sources (fail-closed, two generated files so "
+            "that one degrading does not hide the other); hand mirror of _scale_up_processes / _cleanup_dead_processes / spawn helpers / "
+            "_on_start capacity resolution in Model/Pool.v (tied by the differential run + AST shape hashes); IdRecycled is modelled as "
+            "last-forgotten-first reuse (other reuse orders show up as oracle violations / model mismatches, not as proofs); process "
+            "stand-ins (is_alive/start/join/terminate/kill/pid) in place of OS processes; the worker's own part (context, first "
+            "heartbeat, taking an invocation, RUNNING) is played by the harness with the real orchestrator calls on the in-memory "
+            "backend under a harness-owned clock; real death, Process.is_alive semantics and the child processes' own code are outside "
+            "the model. Fixed finding (defect #2, afe09cc): MultiThreadRunner.runner_loop_iteration never pruned dead workers.",
     "design_ref": "DESIGN.md §6 C14",
 }
 
-IMPORTS = ["Model.Pool", "gen.Pool_gen"]
+IMPORTS = ["Model.Pool", "gen.Pool_gen", "gen.PoolIds_gen"]
+DEAD_AFTER_MIN = 1.0   # runner_considered_dead_after_minutes of every app built here (harness-owned clock)
+WORKER_CLS = {"mtr": "ThreadRunner", "ppr": "PPRWorker", "pr": "ProcessRunnerWorker"}
 SETTLE = 3          # "within the next loop iterations": the oracle looks at the 3rd consecutive iteration
 KNOWN_KEY = "mtr:dead-workers-still-tracked"
 
@@ -81,12 +106,19 @@ class _OsShim:
 
 
 class World:
-    """One real runner of `kind` on a fresh in-memory app, with process stand-ins."""
+    """One real runner of `kind` on a fresh in-memory app, with process stand-ins and a harness-owned clock.
+
+    A worker is identified by its RUNNER ID — the key under which the parent tracks it in child_runner_ids —
+    numbered by first appearance (`ord`).  The stand-in processes have their own serial numbers; with a fresh id
+    per spawn the two numberings coincide, and the oracle does not rely on that."""
 
     def __init__(self, kind: str, params: dict):
         self.kind, self.params = kind, dict(params)
-        self.procs: list = []          # stand-in processes in creation order; index = model worker id
+        self.procs: list = []          # stand-in processes in creation order
         self.hb_calls: list = []       # ids passed to register_runner_heartbeats since last reset
+        self.ord: dict[str, int] = {}  # runner id -> ordinal by first appearance in child_runner_ids
+        self.claims: list = []         # (invocation id, owner ordinal): invocations set RUNNING by a worker
+        self.clock = VirtualClock()
         self._stack = contextlib.ExitStack()
         w = self
 
@@ -132,13 +164,14 @@ class World:
         pr = self.params
         cpu = pr.get("cpu", 4)
         mod = {"mtr": m_mtr, "ppr": m_ppr, "pr": m_pr}[self.kind]
+        st.enter_context(self.clock)
         st.enter_context(_patched(mod, "Process", self.FakeProcess))
         st.enter_context(_patched(mod, "Manager", FakeManager))
         if self.kind == "ppr":
             st.enter_context(_patched(mod, "os", _OsShim(mod.os, cpu or None)))
         else:
             st.enter_context(_patched(mod, "cpu_count", lambda: cpu))
-        cfg = {"runner_loop_sleep_time_sec": 0.0}
+        cfg = {"runner_loop_sleep_time_sec": 0.0, "runner_considered_dead_after_minutes": DEAD_AFTER_MIN}
         if self.kind == "mtr":
             cfg.update(min_processes=pr["min_processes"], max_processes=pr["max_processes"],
                        enforce_max_processes=bool(pr["enforce"]))
@@ -155,6 +188,7 @@ class World:
         self.runner = cls(self.app)
         orch = self.app.orchestrator
         real_reg = orch.register_runner_heartbeats
+        self._real_reg = real_reg
 
         def recording(runner_ids, *a, **k):
             self.hb_calls.append(list(runner_ids))
@@ -170,6 +204,7 @@ class World:
         finally:
             for s, h in saved.items():
                 signal.signal(s, h)
+        self._scan()
         return self
 
     def __exit__(self, *exc):
@@ -186,30 +221,79 @@ class World:
     def _proc(self, v):
         return v.process if hasattr(v, "process") else v
 
-    def serial_of(self, runner_id):
-        v = self.runner.child_runner_ids.get(runner_id)
-        return None if v is None else self._proc(v).serial
+    def _scan(self):
+        for rid in self.runner.child_runner_ids:
+            if rid not in self.ord:
+                self.ord[rid] = len(self.ord)
+
+    def rid_of(self, o):
+        """the runner id with ordinal o if it is tracked now"""
+        for rid in self.runner.child_runner_ids:
+            if self.ord.get(rid) == o:
+                return rid
+        return None
 
     def tracked(self):
-        return [[self._proc(v).serial, 1 if self._proc(v).is_alive() else 0]
-                for v in self.runner.child_runner_ids.values()]
+        self._scan()
+        return [[self.ord[rid], 1 if self._proc(v).is_alive() else 0]
+                for rid, v in self.runner.child_runner_ids.items()]
+
+    def tracked_procs(self):
+        """[[id ordinal, process serial]] of the tracked workers"""
+        return [[self.ord[rid], self._proc(v).serial] for rid, v in self.runner.child_runner_ids.items()]
 
     def queue(self):
         return self.app.broker.count_invocations()
 
-    def _ids_to_serials(self, ids, idmap):
-        return [idmap.get(i, -1) for i in ids]
+    def claims_obs(self):
+        """[[claim index, owner id ordinal, 1 if still RUNNING, 1 if listed by get_running_invocations_for_recovery()]]"""
+        if not self.claims:
+            return []
+        from pynenc.invocation.status import InvocationStatus
+        orch = self.app.orchestrator
+        recoverable = set(orch.get_running_invocations_for_recovery())
+        out = []
+        for k, (inv_id, o) in enumerate(self.claims):
+            running = orch.get_invocation_status(inv_id) == InvocationStatus.RUNNING
+            out.append([k, o, 1 if running else 0, 1 if inv_id in recoverable else 0])
+        return out
+
+    # -- the worker process's part: take an invocation and set it RUNNING under the worker's runner id
+    def _claim(self, o):
+        from pynenc.invocation.status import InvocationStatus
+        rid = self.rid_of(o)
+        if rid is None or any(c[1] == o for c in self.claims):
+            return
+        entry = self.runner.child_runner_ids[rid]
+        if not self._proc(entry).is_alive():
+            return
+        orch = self.app.orchestrator
+        ctx = self.runner.runner_context.new_child_context(WORKER_CLS[self.kind], runner_id=rid)
+        if self.kind == "pr":
+            inv_id = entry.invocation_id        # reserved for this worker by the parent's loop iteration
+        else:
+            # what the worker's main function does first: store its context, register its own first heartbeat
+            self.app.state_backend.store_runner_context(ctx)
+            self._real_reg([rid])
+            self.n_routed += 1
+            self.task(self.n_routed)
+            got = list(orch.get_invocations_to_run(1, ctx))
+            if not got:
+                return
+            inv_id = got[0].invocation_id
+        orch.set_invocation_status(inv_id, InvocationStatus.RUNNING, ctx)
+        self.claims.append((inv_id, o))
 
     # -- events
     def apply(self, ev):
-        """returns (tracked, queue, heartbeat serials (EBeat), ids registered during the event as serials)"""
+        """returns (tracked [[id, alive]], queue, heartbeat ids (EBeat), ids registered during the event, extra)"""
         kind = ev[0]
         self.hb_calls.clear()
-        idmap_before = {rid: self._proc(v).serial for rid, v in self.runner.child_runner_ids.items()}
         if kind == "kill":
-            for s in ev[1]:
-                if 0 <= s < len(self.procs):
-                    self.procs[s].die()
+            for o in ev[1]:
+                rid = self.rid_of(o)
+                if rid is not None:
+                    self._proc(self.runner.child_runner_ids[rid]).die()
         elif kind == "enqueue":
             for _ in range(ev[1]):
                 self.n_routed += 1
@@ -220,12 +304,17 @@ class World:
             self.runner.runner_loop_iteration()
         elif kind == "beat":
             self.runner._report_child_runner_heartbeats()
+        elif kind == "claim":
+            for o in ev[1]:
+                self._claim(o)
+        elif kind == "tick":
+            self.clock.advance(float(ev[1]))
         else:
             raise ValueError(kind)
-        idmap = dict(idmap_before)
-        idmap.update({rid: self._proc(v).serial for rid, v in self.runner.child_runner_ids.items()})
-        reported = [idmap.get(i, -1) for call in self.hb_calls for i in call]
-        return self.tracked(), self.queue(), (reported if kind == "beat" else []), reported
+        self._scan()
+        reported = [self.ord.get(i, -1) for call in self.hb_calls for i in call]
+        extra = {"procs": self.tracked_procs(), "now": self.clock.now, "claims": self.claims_obs()}
+        return self.tracked(), self.queue(), (reported if kind == "beat" else []), reported, extra
 
 
 @contextlib.contextmanager
@@ -252,13 +341,21 @@ def configured(kind: str, pr: dict) -> dict:
     return {"cap": max(pr["min_parallel_slots"], pr["cpu"])}
 
 
-def oracle(kind: str, pr: dict, events: list, obs: list) -> list[tuple[str, str, int]]:
-    """-> [(key, what, event index)]; obs[i] = (tracked, queue, beat, registered) after events[i]"""
+def oracle(kind: str, pr: dict, events: list, obs: list, stats: dict | None = None) -> list[tuple[str, str, int]]:
+    """-> [(key, what, event index)]; obs[i] = (tracked [[id, alive]], queue, beat, registered, extra) after events[i].
+    Ids are RUNNER IDS (ordinals by first appearance).  `died[id]` = (event index, clock) at which the process tracked
+    under that id was first seen dead: from then on the id stands for a dead worker, whatever is tracked under it later."""
     conf = configured(kind, pr)
+    timeout = DEAD_AFTER_MIN * 60.0
     out = []
     consecutive = 0
-    for i, (ev, (tracked, queue, beat, registered)) in enumerate(zip(events, obs)):
+    died: dict[int, tuple[int, float]] = {}
+    st = stats if stats is not None else {}
+    for i, (ev, ob) in enumerate(zip(events, obs)):
+        tracked, queue, beat, registered = ob[:4]
+        extra = ob[4] if len(ob) > 4 else {}
         alive_now = {s for s, a in tracked if a}
+        tracked_dead = {s for s, a in tracked if not a}
         consecutive = consecutive + 1 if ev[0] == "iter" else 0
         if ev[0] == "beat":
             # state is unchanged by a heartbeat report: alive_now is the liveness at the time of the call
@@ -273,6 +370,33 @@ def oracle(kind: str, pr: dict, events: list, obs: list) -> list[tuple[str, str,
                 out.append((f"hb:{kind}:dead-worker-registered",
                             f"{kind}: event {ev} registered a heartbeat for worker(s) {bad} that are not alive afterwards; "
                             f"tracked = {tracked}", i))
+        # follow the ids: an id whose process died earlier must never get another heartbeat, also when a live
+        # (replacement) process is tracked under it now
+        st["heartbeat_ids_checked_against_dead_ids"] = st.get("heartbeat_ids_checked_against_dead_ids", 0) + len(registered)
+        again = sorted({s for s in registered if s in died and s not in tracked_dead})
+        if again:
+            procs = {o: sr for o, sr in extra.get("procs", [])}
+            out.append((f"hb:{kind}:dead-worker-id-heartbeat-after-death",
+                        f"{kind} {pr}: event {i} {ev} passed runner id(s) {again} to register_runner_heartbeats although the "
+                        f"worker process(es) of these ids died at event(s) {[died[s][0] for s in again]}; now tracked under these "
+                        f"ids: process serial(s) {[procs.get(s) for s in again]} (a replacement carrying the dead worker's id "
+                        f"keeps its heartbeat alive: its unfinished invocations never become recoverable); tracked={tracked}", i))
+        for s in tracked_dead:
+            if s not in died:
+                died[s] = (i, extra.get("now", 0.0))
+                st["ids_seen_dead"] = st.get("ids_seen_dead", 0) + 1
+        # end to end: the RUNNING invocation of a dead worker is recoverable once the dead-runner timeout has passed
+        for k, owner, running, recoverable in extra.get("claims", []):
+            if owner in died and running:
+                overdue = extra["now"] - died[owner][1] > timeout
+                if overdue:
+                    st["recoverability_judgements"] = st.get("recoverability_judgements", 0) + 1
+                    if not recoverable:
+                        out.append((f"recover:{kind}:dead-workers-invocation-not-recoverable",
+                                    f"{kind} {pr}: worker id {owner} died at event {died[owner][0]} "
+                                    f"({extra['now'] - died[owner][1]:.0f} s ago, dead-runner timeout {timeout:.0f} s) while its "
+                                    f"invocation (claim {k}) was RUNNING; after event {i} {ev} get_running_invocations_for_recovery() "
+                                    f"does not list it; tracked={tracked}", i))
         if ev[0] == "iter" and consecutive >= SETTLE:
             dead_tracked = [s for s, a in tracked if not a]
             live = len(alive_now)
@@ -312,28 +436,37 @@ def coq_events(events: list) -> str:
             return "EKill [" + "; ".join(str(s) for s in ev[1]) + "]"
         if ev[0] == "enqueue":
             return f"EEnqueue {ev[1]}"
+        if ev[0] in ("claim", "tick"):
+            # no pool effect: a worker routing+taking one invocation leaves the queue length as it was; the clock is
+            # not part of the pool
+            return "EEnqueue 0"
         return {"drain": "EDrain", "iter": "EIter", "beat": "EBeat"}[ev[0]]
     return "[" + "; ".join(one(e) for e in events) + "]"
 
 
-def coq_case(kind: str, pr: dict, events: list, ops: str | None = None, sel: str | None = None) -> str:
+def coq_case(kind: str, pr: dict, events: list, ops: str | None = None, sel: str | None = None,
+             src: str | None = None) -> str:
     c = coq_cfg(kind, pr)
-    return (f"(obs_pool (start {c}), trace {c} {ops or kind + '_loop_ops'} {sel or kind + '_hb_sel'} "
-            f"(start {c}) {coq_events(events)})")
+    return (f"(obs_pool (start {c}), traceG {src or kind + '_id_src'} {c} {ops or kind + '_loop_ops'} "
+            f"{sel or kind + '_hb_sel'} (start {c}) {coq_events(events)})")
 
 
 def model_self_test(ctx: Ctx, runs) -> dict:
     """Thorough tier: the comparison must notice deliberately wrong models (a loop without the prune, a heartbeat
-    selector that reports every tracked worker) on the traces just recorded from the real runners."""
+    selector that reports every tracked worker, replacements that take over the ids of forgotten workers) on the
+    traces just recorded from the real runners."""
     out = {}
-    for name, kind, ops, sel in (("ppr_loop_without_prune", "ppr", "[LSpawnTo]", None),
-                                 ("pr_heartbeat_for_all_tracked", "pr", None, "HbAll")):
+    for name, kind, ops, sel, src in (("ppr_loop_without_prune", "ppr", "[LSpawnTo]", None, None),
+                                      ("pr_heartbeat_for_all_tracked", "pr", None, "HbAll", None),
+                                      ("ppr_recycled_worker_ids", "ppr", None, None, "IdRecycled"),
+                                      ("mtr_recycled_worker_ids", "mtr", None, None, "IdRecycled"),
+                                      ("pr_recycled_worker_ids", "pr", None, None, "IdRecycled")):
         sub = [r for r in runs if r[0] == kind][:120]
-        vals = ctx.coq_eval(IMPORTS, [coq_case(k, pr, ev, ops, sel) for k, pr, ev, _s, _o in sub], chunk=60)
+        vals = ctx.coq_eval(IMPORTS, [coq_case(k, pr, ev, ops, sel, src) for k, pr, ev, _s, _o in sub], chunk=60)
         differ = 0
         for (_k, _pr, _ev, start, obs), v in zip(sub, vals):
             model_trace = [[[list(x) for x in t], q, list(h)] for (t, q, h) in v[1]]
-            if [list(x) for x in v[0]] != start or model_trace != [[t, q, b] for (t, q, b, _r) in obs]:
+            if [list(x) for x in v[0]] != start or model_trace != [[o[0], o[1], o[2]] for o in obs]:
                 differ += 1
         out[name] = {"cases": len(sub), "detected": differ}
         if differ == 0:
@@ -370,6 +503,10 @@ def resolve(template, tracked, n_issued, rng):
         return ["kill", sorted(set(ids))]
     if t == "kill_one":
         return ["kill", [rng.choice(tracked)[0]] if tracked else []]
+    if t == "claim_mask":       # the tracked workers selected by the bitmask each take an invocation and set it RUNNING
+        return ["claim", [s for k, (s, _a) in enumerate(tracked) if template[1] >> k & 1]]
+    if t == "claim_random":
+        return ["claim", [s for s, a in tracked if a and rng.random() < template[1]]]
     return list(template)
 
 
@@ -406,6 +543,49 @@ def exhaustive_plans(ctx: Ctx):
     return cases
 
 
+def cycles(dt, n):
+    """what BaseRunner.run() does each cycle, on the harness-owned clock: (time passes) heartbeat report, loop iteration"""
+    return [["tick", dt], ["beat"], ["iter"]] * n
+
+
+def recovery_plans(ctx: Ctx):
+    """workers take invocations (RUNNING under their runner id); EVERY non-empty subset of the pool dies; the parent
+    keeps cycling past the dead-runner timeout (many short cycles / one long one); optionally a second death round
+    in the middle.  Judged by the id-following heartbeat oracle and by get_running_invocations_for_recovery()."""
+    cases = []
+    T = DEAD_AFTER_MIN * 60.0
+    timings = [cycles(T / 2.4, 3) + cycles(T + 1, 1), cycles(T + 1, 1) + cycles(T / 2.4, 2)]
+    if ctx.thorough:
+        timings += [cycles(T / 6, 8), cycles(2 * T, 2)]
+    confs = [("ppr", {"min_parallel_slots": 1, "num_processes": 2, "cpu": 4}, 2, []),
+             ("ppr", {"min_parallel_slots": 1, "num_processes": 3, "cpu": 4}, 3, []),
+             ("mtr", {"min_processes": 2, "max_processes": 2, "cpu": 4, "enforce": True}, 2, [["iter"]]),
+             ("mtr", {"min_processes": 1, "max_processes": 3, "cpu": 4, "enforce": False}, 3, [["enqueue", 4], ["iter"]]),
+             ("pr", {"min_parallel_slots": 1, "cpu": 2}, 2, [["enqueue", 3], ["iter"]]),
+             ("pr", {"min_parallel_slots": 3, "cpu": 2}, 3, [["enqueue", 5], ["iter"]])]
+    if ctx.thorough:
+        confs += [("ppr", {"min_parallel_slots": 4, "num_processes": 0, "cpu": 2}, 4, []),
+                  ("mtr", {"min_processes": 3, "max_processes": 0, "cpu": 3, "enforce": True}, 3, [["iter"]]),
+                  ("pr", {"min_parallel_slots": 1, "cpu": 4}, 4, [["enqueue", 4], ["iter"]])]
+    for kind, pr, size, pre in confs:
+        full = 2 ** size - 1
+        for tm_i, tm in enumerate(timings):
+            for kill in range(1, 2 ** size):
+                claim_masks = range(1, 2 ** size) if (size <= 2 or ctx.thorough) else sorted({kill, full, kill ^ full or full, 1})
+                for claim in claim_masks:
+                    if not claim & kill:
+                        continue        # nobody who dies owns an invocation: covered by the other families
+                    plan = pre + [["claim_mask", claim], ["beat"], ["kill_mask", kill]] + tm + [["beat"]]
+                    cases.append((kind, pr, plan))
+                    if tm_i == 0:
+                        # a second round: the replacements take work and die too, half-way through
+                        half = len(tm) // 2 // 3 * 3
+                        plan2 = pre + [["claim_mask", claim], ["kill_mask", kill]] + tm[:half] \
+                            + [["claim_mask", full], ["kill_mask", kill]] + tm[half:] + cycles(T + 1, 1) + [["beat"]]
+                        cases.append((kind, pr, plan2))
+    return cases
+
+
 def random_plans(ctx: Ctx):
     rng = ctx.rng
     n = 1500 if ctx.thorough else 150
@@ -436,9 +616,15 @@ def random_plans(ctx: Ctx):
                 plan.append(["drain"])
             if rng.random() < 0.6:
                 plan.append(["beat"])
+            if rng.random() < 0.35:
+                plan.append(["tick", rng.choice((5.0, 20.0, 31.0, 61.0))])
             plan += [["iter"]] * rng.choice((1, 1, 2, 3, 3, 4))
             if rng.random() < 0.3:
+                plan.append(["claim_random", rng.choice((0.4, 0.8))])
+            if rng.random() < 0.3:
                 plan.append(["beat"])
+        if rng.random() < 0.4:
+            plan += cycles(rng.choice((25.0, 61.0, 130.0)), rng.choice((1, 3)))
         plan += [["iter"]] * SETTLE + [["beat"]]
         cases.append((kind, pr, plan))
     return cases
@@ -460,13 +646,17 @@ def run_impl(kind, pr, plan, rng, concrete=False):
 def main(ctx: Ctx) -> int:
     world.quiet()
     info = ctx.translate("pool_loops", pool_loops.translate, "gen/Pool_gen.v")
+    info_ids = ctx.translate("pool_ids", pool_loops.translate_ids, "gen/PoolIds_gen.v")
     if info.get("shape_changed"):
         ctx.log("helper shapes changed:", info["shape_changed"], "- relying on the differential run")
     ctx.prove("Props/C14.v")
     cases = exhaustive_plans(ctx)
     n_exh = len(cases)
+    cases += recovery_plans(ctx)
+    n_rec = len(cases) - n_exh
     cases += random_plans(ctx)
-    ctx.log(f"{len(cases)} cases ({n_exh} exhaustive two-round death subsets + {len(cases) - n_exh} random histories)")
+    ctx.log(f"{len(cases)} cases ({n_exh} exhaustive two-round death subsets + {n_rec} death-then-recovery histories + "
+            f"{len(cases) - n_exh - n_rec} random histories)")
     runs = []
     stats = {"events": {}, "kills_by_size": {}, "kill_all_events": 0, "by_kind": {}, "configs": set(), "seq_len": {}}
     for kind, pr, plan in cases:
@@ -489,17 +679,19 @@ def main(ctx: Ctx) -> int:
     vals = ctx.coq_eval(IMPORTS, exprs, chunk=120)
     n_mismatch = 0
     oracle_hits: dict[str, int] = {}
+    oracle_stats: dict[str, int] = {}
     distinct = set()
     for (kind, pr, events, start, obs), v in zip(runs, vals):
         distinct.add(json.dumps([kind, pr, events], sort_keys=True))
         m_start, m_trace = v[0], v[1]
-        impl_trace = [[t, q, b] for (t, q, b, _r) in obs]
+        impl_trace = [[o[0], o[1], o[2]] for o in obs]
         model_trace = [[[list(x) for x in t], q, list(h)] for (t, q, h) in m_trace]
-        verdicts = oracle(kind, pr, events, obs)
+        verdicts = oracle(kind, pr, events, obs, oracle_stats)
         for key, what, idx in verdicts:
             oracle_hits[key] = oracle_hits.get(key, 0) + 1
             ctx.violation(key, what, {"kind": kind, "params": pr, "events": events[:idx + 1], "failing_event": idx,
-                                      "observed": obs[idx][:3]})
+                                      "observed": obs[idx][:3], "id_to_process_serial": obs[idx][4]["procs"],
+                                      "claims_k_owner_running_recoverable": obs[idx][4]["claims"]})
         same = [list(x) for x in m_start] == start and model_trace == impl_trace
         if not same:
             n_mismatch += 1
@@ -519,10 +711,13 @@ def main(ctx: Ctx) -> int:
                         "after_each_event": [[t, q, b] for t, q, b in impl_trace]})
     n_events = sum(len(r[2]) for r in runs)
     ctx.count(n_events, len(distinct))
-    if ctx.thorough:
+    if ctx.thorough and not ctx.violations and n_mismatch == 0:
+        # guards a PASS against a comparison that cannot tell models apart; with violations on the table the wrong
+        # models may well coincide with the (changed) implementation
         ctx.notes["self_test_wrong_models_detected"] = model_self_test(ctx, runs)
     ctx.notes["correspondence"] = {
-        "cases": len(runs), "exhaustive_two_round_cases": n_exh, "random_histories": len(runs) - n_exh,
+        "cases": len(runs), "exhaustive_two_round_cases": n_exh, "death_then_recovery_histories": n_rec,
+        "random_histories": len(runs) - n_exh - n_rec,
         "events_compared_with_model": n_events, "model_mismatches": n_mismatch,
         "cases_by_runner": {k: v for k, v in stats["by_kind"].items() if not k.startswith("_s_")},
         "distinct_configurations": len(stats["configs"]),
@@ -531,7 +726,11 @@ def main(ctx: Ctx) -> int:
         "death_events_killing_every_live_worker": stats["kill_all_events"],
         "history_length_histogram": {str(k): v for k, v in sorted(stats["seq_len"].items())},
         "oracle_hits": oracle_hits,
+        "id_following_oracle": oracle_stats,
+        "invocations_claimed_by_workers": sum(len(r[4][-1][4]["claims"]) for r in runs if r[4]),
     }
+    ctx.notes["generated_id_sources"] = {k: info_ids.get(k) for k in ("mtr_id_src", "ppr_id_src", "pr_id_src")} \
+        if not info_ids.get("degraded") else "translator degraded: committed default (IdFresh for all three runners)"
     ctx.notes["generated_loops"] = {k: info.get(k) for k in ("mtr_loop", "ppr_loop", "pr_loop", "mtr_hb", "ppr_hb", "pr_hb",
                                                               "base_reports_active")}
     ctx.notes["mtr_verdict_branch"] = ("restored (loop prunes before scaling up)" if info.get("mtr_loop") == ["LPrune", "LScaleUp"]
@@ -541,7 +740,12 @@ def main(ctx: Ctx) -> int:
     ctx.assumptions += [
         "worker processes are stand-ins (is_alive/start/join/terminate/kill/pid) whose liveness the harness controls; a death is "
         "is_alive() turning False between two calls of the runner's methods",
-        "worker ids in the model are spawn serial numbers; the real ids are uuid4 strings mapped by spawn order",
+        "worker ids in the model and in the oracle are RUNNER IDS numbered by first appearance as a key of child_runner_ids "
+        "(the real ids are strings); the stand-in processes carry their own serial numbers, reported in the messages only",
+        "a worker's part (store its context, first heartbeat, take one invocation, set it RUNNING under its runner id) is played "
+        "by the harness with the real orchestrator calls; time is a harness-owned clock (runner_considered_dead_after_minutes = "
+        f"{DEAD_AFTER_MIN}); an invocation of a dead worker must be listed by get_running_invocations_for_recovery() once more than "
+        "that timeout has passed since the death was possible to observe",
         "the oracle judges capacity at the 3rd consecutive loop iteration after the last other event ('within the next loop iterations')",
         "non-enforcing multi-thread configuration: demand = min(queue length, max_processes) (min_processes is an initial size only)",
         "in-memory broker/orchestrator/state backend behind the runners (the runners' pool logic does not depend on the backend)",
@@ -550,11 +754,17 @@ def main(ctx: Ctx) -> int:
         "hand mirror in Model/Pool.v of _scale_up_processes, _cleanup_dead_processes, the spawn helpers and the capacity resolution of "
         "_on_start/max_parallel_slots — tied by the per-event differential run and AST shape hashes",
         "process stand-ins replace multiprocessing.Process/Manager/cpu_count inside the three runner modules",
+        "harness/vclock.py replaces the clock of the in-memory orchestrator and of the status records",
+        "AST classification of the worker-id source (str(uuid4()) / uuid4().hex / f-string with uuid4 / new_child_context() default "
+        "= fresh; a value taken from a container, attribute, name or uuid-free literal = recycled; unknown calls fail closed)",
     ]
     return ctx.finish(
         rule="exhaustive stream: for each small configuration two rounds of deaths where every subset of the tracked workers dies "
-             "(bitmask), heartbeat before/after, 3 settling iterations; random stream: seeded histories of 1-6 rounds (kill all / one / "
-             "random subset incl. unknown ids, enqueue/drain, heartbeats, 1-4 iterations) over random configurations; evaluations = "
+             "(bitmask), heartbeat before/after, 3 settling iterations; recovery stream: per runner and small configuration every "
+             "non-empty subset of workers owning a RUNNING invocation x every non-empty death subset x timings (short cycles / one "
+             "long cycle past the dead-runner timeout), with and without a second death round of the replacements; random stream: "
+             "seeded histories of 1-6 rounds (kill all / one / random subset incl. unknown ids, enqueue/drain, heartbeats, clock "
+             "ticks, workers taking invocations, 1-4 iterations) over random configurations; evaluations = "
              "events whose observation was compared with the model and judged by the oracle; distinct_nontrivial = distinct "
              "(runner, configuration, concrete event list)")
 
@@ -568,8 +778,10 @@ def replay(ctx: Ctx, path: str) -> int:
     print("runner", kind, "params", pr, "configured", configured(kind, pr))
     print("start tracked [id, alive]:", start)
     for i, (ev, ob) in enumerate(zip(evs, obs)):
-        print(f"{i:3d} {ev!s:32} tracked={ob[0]} queue={ob[1]}" + (f" heartbeats={ob[2]}" if ev[0] == "beat" else "")
-              + (f" registered={ob[3]}" if ev[0] != "beat" and ob[3] else ""))
+        print(f"{i:3d} {ev!s:32} tracked[id,alive]={ob[0]} [id,process]={ob[4]['procs']} queue={ob[1]}"
+              + (f" heartbeats={ob[2]}" if ev[0] == "beat" else "")
+              + (f" registered={ob[3]}" if ev[0] != "beat" and ob[3] else "")
+              + (f" t={ob[4]['now'] - 1_700_000_000.0:.0f}s claims[k,owner,running,recoverable]={ob[4]['claims']}" if ob[4]["claims"] else ""))
     verdicts = oracle(kind, pr, evs, obs)
     for key, what, idx in verdicts:
         print("ORACLE", key, "at event", idx, ":", what)
